@@ -51,7 +51,7 @@ def oracle(case):
                     if ":" in str(it.value) or ":" in str(it.descr):
                         # 'DESCR : VALUE' (LAS 1.2 ~W) with a colon inside a field is ambiguous in the format itself
                         colon_items.add((name, it.original_mnemonic.upper()))
-        t = attempt(build.write_text, las, **opts)
+        t = attempt(build.write_text, las, **resolve(opts, las, out))
         if is_raised(t):
             out.rejected = True
             out.cls("unwritable:" + t.type)
@@ -83,6 +83,32 @@ def oracle(case):
     return out
 
 
+def resolve(opts, las, out):
+    """column_fmt keys back to int (JSON replays); data_width 'fit+K' -> width of the widest data token + K (the
+    documented precondition of wrapping is that every token fits on a line: K = 0 is its boundary)."""
+    o = dict(opts)
+    if "column_fmt" in o:
+        o["column_fmt"] = {int(k): v for k, v in o["column_fmt"].items()}
+        out.cls("column_fmt")
+    dw = o.get("data_width")
+    if isinstance(dw, str):
+        widest = 1
+        try:
+            for j, cv in enumerate(las.curves):
+                f = o.get("column_fmt", {}).get(j, o.get("fmt", "%.5f"))
+                for x in cv.data:
+                    try:
+                        t = str(las.well["NULL"].value) if x != x else f % x
+                    except TypeError:
+                        t = str(x) + "  "
+                    widest = max(widest, len(t))
+            o["data_width"] = widest + int(dw.split("+")[1])
+            out.cls("data_width-boundary")
+        except Exception:  # noqa - no NULL item etc.: the plain default
+            o["data_width"] = 79
+    return o
+
+
 CFG = st.fixed_dictionaries({"version": st.sampled_from([1.2, 2]), "wrap": st.booleans()}, optional={
     "len_numeric_field": st.sampled_from([None, -1, 12, 18]),
     "spacer": st.sampled_from([" ", "  ", "\t"]),
@@ -112,6 +138,17 @@ def desc_cases(draw):
     fmt = draw(FMT)
     a, b = dict(draw(CFG)), dict(draw(CFG))
     a["fmt"] = b["fmt"] = fmt
+    if draw(st.integers(0, 2)) == 0:
+        # per-column formats are part of the numeric format: the same for both configurations
+        nc = len(desc["curves"])
+        cf = {str(j): draw(st.sampled_from(["%.1f", "%.3f", "%.7f", "%10.2f", "%.4e"])) for j in range(nc) if draw(st.integers(0, 2)) == 0}
+        if nc and draw(st.booleans()):
+            cf[str(nc - 1)] = draw(st.sampled_from(["%.1f", "%.7f"]))
+        if cf:
+            a["column_fmt"], b["column_fmt"] = dict(cf), dict(cf)
+    for cfg in (a, b):
+        if cfg.get("wrap") and draw(st.integers(0, 3)) == 0 and "\t" not in cfg.get("spacer", " "):
+            cfg["data_width"] = "fit+%d" % draw(st.integers(0, 2))
     if draw(st.integers(0, 2)) == 0:
         b["version"] = 1.2 if a["version"] == 2 else 2
     return {"src": {"desc": desc}, "a": a, "b": b,
